@@ -5,24 +5,19 @@
   3. harness c08: real interpreters (bare sandbox, sandbox + StandardSetup, unrestricted control,
      cmd/zygo -sandbox binary) called with canary arguments; names bound at run time
   4. extracted model: effect classes the tables predict for every harness program
-  5. decisions: observed effect in a sandboxed configuration = property failure (known findings matched
-     narrowly by entry name); observed effect the tables do not predict, name sets that differ,
-     proof/translator breaks = VIOLATION ... no-failing-input-found unless a canary script shows the effect
+  5. decisions: observed effect in a sandboxed configuration = property failure with the script as replay
+     (no known findings: the three leaks of the first round were repaired in /repo 2b6c2ae);
+     observed effect the tables do not predict, name sets that differ, proof/translator breaks =
+     VIOLATION ... no-failing-input-found unless a canary script shows the effect
 """
 import json
 import os
-import re
 
 from . import common
 from .common import Check, iter_joined
 
 SANDBOX_CFGS = ("bare", "std", "bin")
-# known finding id -> (table, script name, configurations, effect classes the leak explains)
-KNOWN = {
-    "include-special-form": ("special", "include", ("bare", "std", "bin"), {"file_read"}),
-    "stdsetup-sys": ("binding", "sys", ("std", "bin"), {"process", "file_read", "file_write", "env_read"}),
-    "stdsetup-import": ("binding", "import", ("std", "bin"), {"file_read"}),
-}
+ALL_EFFECTS = {"file_read", "file_write", "process", "env_read", "env_write", "exit", "net", "chdir", "stdin_read", "terminal"}
 CANARY_HINT = ('(NAME "<path of a secret file>") / (NAME "echo x > <path>") / (NAME "<ENV NAME>") with 0-3 arguments; '
                'run bin/check C08 --replay <this file> after filling "script"')
 
@@ -136,7 +131,6 @@ def main(argv):
     B = common.BUILD
     tables_json = os.path.join(B, "C08.tables.json")
     bindings_json = os.path.join(B, "C08.bindings.json")
-    listed = set(c.known)
 
     # ---- 1. translator ---------------------------------------------------------------------------
     rc, out = common.translate("sandbox", "SandboxTables.v", extra_args=["--json", tables_json])
@@ -174,15 +168,11 @@ def main(argv):
         for cfg in SANDBOX_CFGS:
             for b in tabs["configs"][cfg]["bindings"]:
                 if b["kind"] != "value" and eff.get(b["fn"], ["unknown"]):
-                    fid = [k for k, v in KNOWN.items() if v[0] == "binding" and v[1] == b["name"] and cfg in v[2] and k in listed]
-                    if not fid:
-                        new_impure.append({"cfg": cfg, "table": "binding:" + b["kind"], "name": b["name"], "go_function": b["fn"],
-                                           "effects": eff.get(b["fn"], ["unknown"]), "call_path": paths.get(b["fn"])})
+                    new_impure.append({"cfg": cfg, "table": "binding:" + b["kind"], "name": b["name"], "go_function": b["fn"],
+                                       "effects": eff.get(b["fn"], ["unknown"]), "call_path": paths.get(b["fn"])})
         for n, f in tabs["special_forms"]:
             if eff.get(f, ["unknown"]):
-                fid = [k for k, v in KNOWN.items() if v[0] == "special" and v[1] == n and k in listed]
-                if not fid:
-                    new_impure.append({"cfg": "all", "table": "special", "name": n, "go_function": f, "effects": eff.get(f), "call_path": paths.get(f)})
+                new_impure.append({"cfg": "all", "table": "special", "name": n, "go_function": f, "effects": eff.get(f), "call_path": paths.get(f)})
         for b in tabs["implicit"]:
             if eff.get(b["fn"], ["unknown"]):
                 new_impure.append({"cfg": "all", "table": "implicit", "name": b["name"], "go_function": b["fn"], "effects": eff.get(b["fn"]), "call_path": paths.get(b["fn"])})
@@ -193,14 +183,6 @@ def main(argv):
                                    "bindings": {k: len(v["bindings"]) for k, v in tabs["configs"].items()},
                                    "unresolved_dynamic_calls": tabs["unresolved_dynamic_calls"],
                                    "sandbox_flag": tabs.get("sandbox_flag", ""), "guarded_functions": tabs.get("guarded_functions") or []}
-
-    # refutation witnesses of the full statements: only while the findings are listed
-    if listed and not c.proof_break:
-        rc, out = common.coq_make(["Properties/C08Refuted.vo"])
-        if rc != 0:
-            c.notes.append("Properties/C08Refuted.v no longer compiles: a listed finding is not refuted by the generated tables any more (repaired?)")
-        else:
-            c.coverage["refuted_witnesses"] = "Properties/C08Refuted.vo built (4 theorems)"
 
     # ---- 3. harness ------------------------------------------------------------------------------
     zygo_bin = os.path.join(B, "zygo-c08")
@@ -255,6 +237,8 @@ def main(argv):
                 corr_fail.append({"input": inp, "model": model, "note": "the model runner could not read the abstract program"})
                 continue
             mset = None if model is None else (set() if model == "-" else set(model.split(",")))
+            if mset and "process" in mset:
+                mset |= ALL_EFFECTS            # a started process (shell) can do anything
             visible = iset - {"stdin_read"}
             if cfg in SANDBOX_CFGS and visible:
                 m = meta.get(cid, {})
@@ -266,23 +250,10 @@ def main(argv):
     c.coverage["compared"] = n
     c.coverage["traces_validated_against_impl"] = n if mout else 0
 
-    # property failures: attribute to known findings narrowly, everything else is a violation
+    # property failures: every observed effect in a sandboxed configuration is a violation
     reported = set()
     viol_by_entry = {}
     for f in prop_fail:
-        used = names_in(f["entry"]) if f["entry"] else set()
-        obs = set(f["observed_effects"]) - {"stdin_read"}
-        explained = set()
-        hits = []
-        for fid, (table, name, cfgs, effs) in KNOWN.items():
-            if fid in listed and f["cfg"] in cfgs and name in used and re.search(r"(^|[\s(\[{.\"])" + re.escape(name) + r"($|[\s)\]}\"])", (f["script"] or "") + " " + " ".join(f["pre"] or [])):
-                if obs & effs:
-                    explained |= effs
-                    hits.append(fid)
-        if hits and obs <= explained and (f["predicted_by_tables"] is None or obs <= set(f["predicted_by_tables"])):
-            for fid in hits:
-                c.known_finding(fid, "%s: %s => %s" % (f["cfg"], (f["script"] or "")[:80], ",".join(sorted(obs))))
-            continue
         key = (f["cfg"], f["entry"] if f["kind"] != "program" else f["script"])
         viol_by_entry.setdefault(key, []).append(f)
     for key, fs in sorted(viol_by_entry.items())[:8]:
@@ -299,7 +270,7 @@ def main(argv):
     for e in new_impure:
         if e["name"] in reported:
             continue
-        c.violation({"kind": "generated tables: an entry reachable from a sandboxed interpreter has an effect class (sandbox_tables_pure_except / special_forms_pure_except no longer hold)",
+        c.violation({"kind": "generated tables: an entry reachable from a sandboxed interpreter has an effect class (sandbox_tables_pure / special_forms_pure / sandbox_no_effect no longer hold)",
                      "entry": e, "cfg": e["cfg"], "script": "(%s ...)" % e["name"], "canary": CANARY_HINT,
                      "note": "no canary call of this entry showed the effect in this run"}, no_input=True, tag="table")
         reported.add(e["name"])
@@ -350,7 +321,4 @@ def main(argv):
     c.coverage["property_failures"] = len(prop_fail)
     c.coverage["correspondence_failures"] = len(corr_fail)
     c.coverage["new_impure_entries"] = len(new_impure)
-    for fid in listed:
-        if fid not in c.known_hits and cases and not c.replay_in:
-            c.notes.append("listed finding %s was not reproduced in this run" % fid)
     c.finish("proof")
